@@ -32,6 +32,11 @@ let handle kind c =
       diff "Mode-IsZero" ~model:(string_of_bool (Z.eqb (mode_time r) zero_day)) ~impl:(string_of_bool iszero);
     check_eq "public-Mode" esc (fst r) pub;
     if not same then prop "mode_read_inert" "reading the mode changed the mode file";
+    (* the mode is on (off) only if the file records exactly on (off): the bare word, or the word up
+       to the first ASCII space, after trimming -- the format SetMode writes *)
+    if (show m = "on" || show m = "off") && fst r <> m then
+      prop "mode_exact" (Printf.sprintf "mode file %s read as \"%s\" (public Mode: \"%s\"); it records \"%s\""
+                           (show_file file) (esc m) (esc pub) (esc (fst r)));
     if tag <> "file" && show m <> "local" then
       prop "unreadable_is_local" (Printf.sprintf "state=%s Mode()=%s" tag (esc m))
   | "nopath" ->
